@@ -11,6 +11,18 @@ ALL_KINDS_3D = HOMOG + ["TransformChain", "WithDims"]
 BOX = 12.0   # PWA / TPS sources live in [-BOX, BOX]^2; probe points in the inner part
 
 
+def amax(x):
+    """max |x| with NaN counted as infinite (a NaN never passes a tolerance test)."""
+    x = np.asarray(x, dtype=float)
+    if x.size == 0:
+        return 0.0
+    m = float(np.abs(x).max())
+    return m if m == m else float("inf")
+
+
+_amax = amax
+
+
 def kinds(d):
     return ALL_KINDS_2D if d == 2 else ALL_KINDS_3D
 
@@ -158,26 +170,26 @@ def honest(t, tol=1e-8):
     L, tr = h[:d, :d], h[:d, d]
     s = max(1e-12, np.abs(L).max())
     if isinstance(t, mt.Affine):
-        if np.abs(h[d, :d]).max() > tol or abs(h[d, d] - 1) > tol:
+        if _amax(h[d, :d]) > tol or abs(h[d, d] - 1) > tol:
             probs.append("Affine with bottom row %s" % h[d].tolist())
     if isinstance(t, mt.Similarity):
         g = L.T @ L
         k = np.trace(g) / d
-        if np.abs(g - k * np.eye(d)).max() > 1e-7 * max(k, 1e-12):
+        if _amax(g - k * np.eye(d)) > 1e-7 * max(k, 1e-12):
             probs.append("Similarity whose linear part is not a scaled orthogonal matrix")
     if isinstance(t, mt.Rotation):
-        if np.abs(L.T @ L - np.eye(d)).max() > 1e-7:
+        if _amax(L.T @ L - np.eye(d)) > 1e-7:
             probs.append("Rotation whose matrix is not orthogonal")
-        if np.abs(tr).max() > 1e-7 * max(1.0, s):
+        if _amax(tr) > 1e-7 * max(1.0, s):
             probs.append("Rotation with a translation")
     if isinstance(t, mt.Translation):
-        if np.abs(L - np.eye(d)).max() > 1e-9:
+        if _amax(L - np.eye(d)) > 1e-9:
             probs.append("Translation whose linear part is not the identity")
     if isinstance(t, mt.UniformScale):
-        if np.abs(L - L[0, 0] * np.eye(d)).max() > 1e-9 * s or np.abs(tr).max() > 1e-9 * max(1.0, s):
+        if _amax(L - L[0, 0] * np.eye(d)) > 1e-9 * s or _amax(tr) > 1e-9 * max(1.0, s):
             probs.append("UniformScale that is not s*I without translation")
     if isinstance(t, mt.NonUniformScale):
-        if np.abs(L - np.diag(np.diag(L))).max() > 1e-9 * s or np.abs(tr).max() > 1e-9 * max(1.0, s):
+        if _amax(L - np.diag(np.diag(L))) > 1e-9 * s or _amax(tr) > 1e-9 * max(1.0, s):
             probs.append("NonUniformScale that is not diagonal without translation")
     return probs
 
@@ -188,4 +200,15 @@ def maxdiff(a, b):
         return float("inf")
     if a.size == 0:
         return 0.0
-    return float(np.abs(a - b).max())
+    na, nb = np.isnan(a), np.isnan(b)
+    if na.any() or nb.any():
+        if (na != nb).any():
+            return float("inf")          # a missing value on one side only
+        if na.all():
+            return 0.0
+        a, b = a[~na], b[~nb]
+    with np.errstate(invalid="ignore"):
+        d = np.abs(a - b)
+    d = np.where(a == b, 0.0, d)         # equal infinities are equal
+    m = float(d.max())
+    return m if m == m else float("inf")
